@@ -157,6 +157,9 @@ func init() {
 					return strings.HasPrefix(o.Construct, "alloc/") || strings.HasPrefix(o.Construct, "ptr-store/")
 				}), 3)
 			}},
+			{ID: "C14.R4", Doc: "TypeOf, the kind the typed views must agree with, reports every stored kind, containers by their interface (= C12.R3)", Run: func(c *Ctx) {
+				c.R.Floor("C14.R4", runAs(c, "C14.R4", c12R3, func(o *Obligation) bool { return strings.Contains(o.Construct, "TypeOf") }), 2)
+			}},
 			{ID: "C14.R2", Doc: "kind test equals the kind demanded by the signature (or All* name table); AllX returns false exactly on a non-K element and true after the loop", Run: func(c *Ctx) {}},
 		},
 	})
